@@ -174,7 +174,7 @@ def opLayout (j : Json) : Json :=
 /-- per-field sizes of the instance after unpack (for `offsets()` / `offset_of()` on the instance) -/
 def instSizes (ps : Nat) (data : Bytes) (pos : Nat) (d : Def) : Option (List (Option Nat)) :=
   match unpackFields ps data pos d.isUnion d.packed d.fields 0 [] with
-  | some (_, res) => some (res.map (fun r => some r.1))
+  | some (_, res) => some (res.map (fun r => some r.2.1))
   | none => none
 
 def opUnpack (j : Json) : Json :=
